@@ -154,6 +154,9 @@ func (p *Path) callFunction(fn *ssa.Function, args []Value, env []Value) (res Va
 		}
 		panic(p.abort("external function without model: " + fi.name))
 	}
+	if reflGuard(fn) {
+		panic(p.abort("reflect function without model: " + fi.name))
+	}
 	if p.fnSeen != nil {
 		p.fnSeen[fn] = true
 	}
@@ -439,7 +442,7 @@ func (p *Path) visit(fr *frame, instr ssa.Instruction) cont {
 			}
 		}
 	case *ssa.Select:
-		panic(p.abort("select statement"))
+		p.set(fr, in, p.selectStmt(fr, in)) // sequential model, see intr_reflect.go
 	default:
 		panic(p.abort(fmt.Sprintf("unsupported instruction %T", instr)))
 	}
@@ -549,6 +552,23 @@ func (p *Path) callValue(fr *frame, fn Value, args []Value, cc *ssa.CallCommon) 
 }
 
 func (p *Path) goStmt(fr *frame, in *ssa.Go) {
+	// A goroutine is dropped (not executed) only if the suite says so explicitly:
+	// override "go:<ssa name of the callee>": "skip" (fire-and-forget notifications
+	// whose effects are outside the claim; recorded in the evidence).
+	if callee := in.Call.StaticCallee(); callee != nil && p.hr != nil {
+		name := "go:" + callee.String()
+		_, ok := p.hr.overrides[name]
+		for _, po := range p.hr.prefixOverrides {
+			if strings.HasPrefix(name, po.prefix) && strings.HasPrefix(po.prefix, "go:") {
+				ok = true
+			}
+		}
+		if ok {
+			p.hr.noteOutside("goroutine not executed (suite override): " + callee.String())
+			return
+		}
+		panic(p.abort("go statement (callee " + callee.String() + ")"))
+	}
 	panic(p.abort("go statement"))
 }
 
